@@ -559,6 +559,9 @@ class Evaluator:
                 return ("cparam", o["const_param"])
             if "int" in o:
                 return ("int", o["int"])
+            if "variant" in o:
+                # a named constant of a field-less enum, evaluated by the compiler: the variant it denotes
+                return ("agg", "%s::%s" % (norm_std(o["ty"]), o["variant"]), ())
             return ("const", norm_std(o["s"]))
         return ("unknown", k)
 
